@@ -8,6 +8,10 @@ import (
 	"testing"
 	"time"
 
+	"google.golang.org/protobuf/types/known/timestamppb"
+
+	commonv1 "github.com/apache/skywalking-banyandb/api/proto/banyandb/common/v1"
+	databasev1 "github.com/apache/skywalking-banyandb/api/proto/banyandb/database/v1"
 	measurev1 "github.com/apache/skywalking-banyandb/api/proto/banyandb/measure/v1"
 	modelv1 "github.com/apache/skywalking-banyandb/api/proto/banyandb/model/v1"
 	streamv1 "github.com/apache/skywalking-banyandb/api/proto/banyandb/stream/v1"
@@ -197,6 +201,7 @@ func TestVerifC09(t *testing.T) {
 			s.Violation(fmt.Sprintf("c09:%s:order-by-%s:%s", b.kind, kind, map[bool]string{true: "asc", false: "desc"}[asc]), map[string]any{"query": desc, "discrepancy": d, "selected_rows": len(ref), "returned": len(got)})
 		}
 	}
+	multiGroup(t, s, sv, base)
 	// the largest limit together with an offset (sum exceeds 32 bits)
 	for _, b := range bs {
 		for _, off := range []int{1, 3} {
@@ -222,4 +227,81 @@ func TestVerifC09(t *testing.T) {
 		}
 	}
 	s.Done()
+}
+
+// multiGroup: one ordered query over 3-4 groups; the per-group results are k-way merged by the coordinator.
+func multiGroup(t *testing.T, s *verifh.Sink, sv *srv, base time.Time) {
+	must := func(err error) {
+		if err != nil {
+			t.Fatalf("setup: %v", err)
+		}
+	}
+	groups := []string{"mg1", "mg2", "mg3", "mg4"}
+	var uid int64 = 1 << 20
+	r := verifh.Rand("c09mg", 0)
+	var all [][]qrow
+	for gi, g := range groups {
+		must(sv.group(g, commonv1.Catalog_CATALOG_STREAM, 1, commonv1.IntervalRule_UNIT_DAY, 1, 36500))
+		must(sv.stream(&databasev1.Stream{Metadata: &commonv1.Metadata{Name: "mgs", Group: g},
+			TagFamilies: []*databasev1.TagFamilySpec{{Name: "default", Tags: qTags}}, Entity: &databasev1.Entity{TagNames: []string{"id"}}}))
+		must(sv.waitWritableStream(g, "mgs", func() *streamv1.ElementValue {
+			q := qrow{id: "sentinel", uid: -1, svc: "s", labels: []string{"s"}, codes: []int64{-9}, ts: time.Date(2020, 1, 1, 0, 0, 0, 0, time.UTC)}
+			return &streamv1.ElementValue{ElementId: "sentinel", Timestamp: timestamppb.New(q.ts), TagFamilies: []*modelv1.TagFamilyForWrite{{Tags: q.writeTags()}}}
+		}))
+		// group sizes differ a lot, so some inputs of the merge run dry early: 3, 40, 9, 1 rows
+		n := []int{3, 40, 9, 1}[gi]
+		rows := genDataset(r, n, 2, 1, base, &uid, false)
+		els := make([]*streamv1.ElementValue, len(rows))
+		for i, q := range rows {
+			els[i] = &streamv1.ElementValue{ElementId: fmt.Sprint("e", q.uid), Timestamp: timestamppb.New(q.ts), TagFamilies: []*modelv1.TagFamilyForWrite{{Tags: q.writeTags()}}}
+		}
+		acked, err := sv.writeStream(g, "mgs", els)
+		if err != nil || countTrue(acked) != len(els) {
+			t.Fatalf("setup: multi-group write: %v", err)
+		}
+		all = append(all, rows)
+	}
+	proj := &modelv1.TagProjection{TagFamilies: []*modelv1.TagProjection_TagFamily{{Name: "default", Tags: []string{"uid"}}}}
+	for q := 0; q < verifh.Pick(40, 400); q++ {
+		rr := verifh.Rand("c09mgq", q)
+		// a subset of >=2 groups in a seeded order
+		perm := rr.Perm(len(groups))
+		k := 2 + rr.Intn(len(groups)-1)
+		var gs []string
+		var ref []orderedRow
+		for _, gi := range perm[:k] {
+			gs = append(gs, groups[gi])
+			for _, row := range all[gi] {
+				ref = append(ref, orderedRow{uid: row.uid, key: row.ts.UnixNano()})
+			}
+		}
+		asc := rr.Intn(2) == 0
+		dir := modelv1.Sort_SORT_DESC
+		if asc {
+			dir = modelv1.Sort_SORT_ASC
+		}
+		offset, limit := []int{0, 1, 3}[rr.Intn(3)], []int{1, 5, 100}[rr.Intn(3)]
+		resp, err := sv.queryStream(&streamv1.QueryRequest{Groups: gs, Name: "mgs", TimeRange: tsRange(base.Add(-time.Hour), base.Add(48*time.Hour)), Projection: proj,
+			OrderBy: &modelv1.QueryOrder{Sort: dir}, Offset: uint32(offset), Limit: uint32(limit)})
+		desc := fmt.Sprintf("groups=%v order=time dir=%v offset=%d limit=%d", gs, dir, offset, limit)
+		s.Case(desc, true)
+		s.Count("c09.queries.multi_group", 1)
+		if err != nil {
+			s.Violation("c09:query-error:multi-group", map[string]any{"query": desc, "err": clipS(err.Error(), 300)})
+			continue
+		}
+		var got []orderedRow
+		for _, e := range resp.Elements {
+			row := orderedRow{key: e.Timestamp.AsTime().UnixNano()}
+			for _, tf := range e.TagFamilies {
+				for _, tg := range tf.Tags {
+					row.uid = tg.Value.GetInt().GetValue()
+				}
+			}
+			got = append(got, row)
+		}
+		if d := windowDiscrepancy(got, ref, asc, offset, limit); d != "" {
+			s.Violation("c09:stream:multi-group:"+map[bool]string{true: "asc", false: "desc"}[asc], map[string]any{"query": desc, "discrepancy": d, "returned": len(got), "stored": len(ref)})
+		}
+	}
 }
